@@ -5,6 +5,7 @@ use super::bb_c12::*;
 use super::bb_graph::*;
 use super::bb_oneshot::*;
 use super::inc_config::*;
+use super::inc_fs::*;
 use super::projset::*;
 use super::prop::*;
 use super::report::*;
@@ -82,6 +83,7 @@ pub fn main() -> i32 {
         "C11" => c11(&ctx),
         "C12" => c12(&ctx),
         "C14" => c14(&ctx),
+        "C15" => c15(&ctx),
         "C17" => c17(&ctx),
         "C19" => c19(&ctx),
         "C20" => c20(&ctx),
@@ -511,6 +513,13 @@ fn inc_replays(ctx: &Ctx, report: &mut Report) -> u64 {
                     }
                 }
             }
+            "INC-c15" => match replay_c15(r) {
+                Ok(res) => Some(res),
+                Err(e) => {
+                    report.infra_errors.push(e);
+                    None
+                }
+            },
             "INC-c14" => match serde_json::from_value::<ProjSet>(r["projset"].clone()) {
                 Ok(ps) => Some(eval_c14_structured(&ps, &open)),
                 Err(e) => {
@@ -596,6 +605,30 @@ fn c14(ctx: &Ctx) -> i32 {
             stream: 114,
         };
         let (part, failures) = run_prop(&pr, c14_case, |ps: &ProjSet| eval_c14_structured(ps, &open));
+        report.add(part);
+        for f in failures {
+            report.fail(f);
+        }
+    }
+    report.finish()
+}
+
+fn c15(ctx: &Ctx) -> i32 {
+    let mut report = Report::new(ctx, "exploration");
+    report.assume("MUST = regular files (not following links) at/below the listed paths, outside .zinoma directories, name ending with a normalised extension; symlink entries to regular files whose own name matches MAY be denoted (zinoma follows the link for the type test)");
+    report.assume("listed paths are never symlinks, never inside or named .zinoma, and valid UTF-8 (they are YAML strings)");
+    inc_replays(ctx, &mut report);
+    if ctx.replay.is_none() {
+        let pr = PropRun {
+            ctx,
+            engine: "INC",
+            rule: "generated trees (depth <= 4; names: plain, dot-files, multi-dot, name == extension, suffix without dot, non-UTF-8, newline, ~ / .swp; .zinoma at any depth; symlinks to files/dirs inside, outside, dangling) x 1-2 files resources (1-4 listed paths incl. '.', single files, missing; 14 extension declarations) through the real loader (normalisation) and list_files_in_paths / list_files_in_resources; MUST subset-of result subset-of MAY vs the reference walker; watcher predicate on every path; non-trivial = depth >= 2 and one of {.zinoma inside, multi-dot, non-UTF-8, name==extension, link to dir, missing path}; distinct = feature set x extension declarations",
+            total_cases: ctx.tier.pick(3000, 100_000),
+            threads: ctx.threads,
+            max_shrink_iters: 3000,
+            stream: 115,
+        };
+        let (part, failures) = run_prop(&pr, c15_case, eval_c15);
         report.add(part);
         for f in failures {
             report.fail(f);
